@@ -265,7 +265,8 @@ arRdFormat(Archive ar)
 	ArFmtTag	tag;
 
 	AR_SEEK(ar, int0);
-	FILE_GET_CHARS(ar->file, mag, SARMAGMAX);
+	/* A file too short to hold a magic string is not an archive. */
+	if (fread(mag, BYTE_BYTES, SARMAGMAX, ar->file) != SARMAGMAX) return;
 
 	for (tag = AR_START; tag < AR_LIMIT; tag += 1)
 		if (strIsPrefix(arInfo(tag).str, mag))
@@ -587,7 +588,10 @@ arReadNameTable(Archive ar)
 
 
 	/* Read the whole table as a block of text */
-	FILE_GET_CHARS(arFile(ar), ar->names, size);
+	if (fread(ar->names, BYTE_BYTES, size, arFile(ar)) != size) {
+		comsgError(NULL, ALDOR_E_ArTruncated, arToString(ar));
+		ar->names[0] = 0;
+	}
 }
 
 
